@@ -431,3 +431,109 @@ pub proof fn lemma_refine_final(d: CompiledDfa, tm: TMapV, old: PartV, new: Part
         assert(in_grp(old, org[g], s1) && in_grp(old, org[g], s2));
     }
 }
+
+// ---------------------------------------------------------------- minimize
+/// members of a group cannot be told apart by one step into the groups of the same partition
+pub open spec fn self_stable(tm: TMapV, p: PartV) -> bool {
+    forall|g: int, x: StateID, y: StateID| 0 <= g < p.len() && #[trigger] p[g].contains(x) && #[trigger] p[g].contains(y) ==> same_sig(tm, p, x, y)
+}
+/// `a != b` on partitions (Vec<BTreeSet<StateID>>: element-wise set equality)
+#[verifier::external_body]
+pub fn verif_partition_ne(a: &Vec<StateGroup>, b: &Vec<StateGroup>) -> (r: bool)
+    ensures r == !(pv(a@) =~= pv(b@))
+{ a != b }
+/// `a.clone_from(&b)` / `a = b.clone()` on partitions
+#[verifier::external_body]
+pub fn verif_partition_clone(b: &Vec<StateGroup>) -> (r: Vec<StateGroup>)
+    ensures pv(r@) == pv(b@), r@.len() == b@.len()
+{ b.clone() }
+/// non-empty disjoint groups of states below n: at most n groups
+pub proof fn lemma_groups_bounded(p: PartV, n: int)
+    requires part_ok(p, n), all_nonempty(p), 0 <= n <= u32::MAX
+    ensures p.len() <= n
+{
+    let reps = Seq::new(p.len(), |g: int| choose|x: StateID| #[trigger] p[g].contains(x));
+    assert forall|g: int| 0 <= g < p.len() implies p[g].contains(#[trigger] reps[g]) by { assert(set_nonempty(p[g])); }
+    assert(reps.no_duplicates()) by {
+        assert forall|i: int, j: int| 0 <= i < reps.len() && 0 <= j < reps.len() && i != j implies reps[i] != reps[j] by {
+            if reps[i] == reps[j] {
+                let x = reps[i];
+                assert(p[i].contains(x) && p[j].contains(x));
+                assert(StateID(x.0 as int as u32) == x);
+                assert(in_grp(p, i, x.0 as int) && in_grp(p, j, x.0 as int));
+            }
+        }
+    }
+    assert forall|i: int| 0 <= i < reps.len() implies 0 <= (#[trigger] reps[i]).0 < 0 + n by { assert(p[i].contains(reps[i])); }
+    lemma_nodup_bounded(reps, 0, n);
+}
+/// a fixpoint of the refinement is stable for the automaton
+pub proof fn lemma_stable_from_tm(d: CompiledDfa, tm: TMapV, p: PartV)
+    requires tm_ok(d, tm), self_stable(tm, p), part_ok(p, d.states@.len() as int)
+    ensures stable(d, p)
+{
+    assert forall|g: int, s1: int, s2: int, cc: CharClassID, h: int| #![trigger in_grp(p, g, s1), in_grp(p, g, s2), sig(d, p, s1, cc, h)]
+        in_grp(p, g, s1) && in_grp(p, g, s2) && sig(d, p, s1, cc, h) implies sig(d, p, s2, cc, h) by {
+        let x = StateID(s1 as u32);
+        let y = StateID(s2 as u32);
+        lemma_sig_tm(d, tm, p, x, cc, h);
+        lemma_sig_tm(d, tm, p, y, cc, h);
+        assert(same_sig(tm, p, x, y));
+        let t = choose|t: int| #[trigger] in_grp(p, h, t) && 0 <= s1 < d.states@.len() && d.states@[s1].transitions@.contains((cc, StateSetID(t as u32)));
+        assert(0 <= h < p.len());
+    }
+}
+/// what minimize returns: the quotient by some stable, acceptance-homogeneous partition whose first group holds the start state
+pub open spec fn minimized(d: CompiledDfa, r: CompiledDfa) -> bool {
+    exists|p: PartV| #[trigger] part_ok(p, d.states@.len() as int) && stable(d, p) && acc_homog(d, p) && quotient_ok(d, p, r) && all_nonempty(p)
+}
+
+/// edges recorded so far: all transitions of the states below `full`, and the first j transitions of state `full`
+pub open spec fn tm_upto(d: CompiledDfa, tm: TMapV, full: int, j: int) -> bool {
+    &&& forall|s: StateID| #[trigger] tm.contains_key(s) <==> (s.0 < full || (s.0 == full && j >= 0))
+    &&& forall|s: StateID, cc: CharClassID, t: StateID| #[trigger] tm_edge(tm, s, cc, t) <==>
+            ((s.0 < full && d.states@[s.0 as int].transitions@.contains((cc, StateSetID(t.0))))
+             || (s.0 == full && exists|jj: int| 0 <= jj < j && jj < d.states@[full].transitions@.len() && #[trigger] d.states@[full].transitions@[jj] == (cc, StateSetID(t.0))))
+}
+/// one more transition (cc0, x) of state `full` recorded: tm1 is tm0 with x added to the target list of cc0
+pub proof fn lemma_tm_step(d: CompiledDfa, tm0: TMapV, tm1: TMapV, full: int, j: int, cc0: CharClassID, x: StateID)
+    requires
+        tm_upto(d, tm0, full, j), 0 <= full < d.states@.len(), 0 <= j < d.states@[full].transitions@.len(), full <= u32::MAX,
+        d.states@[full].transitions@[j] == (cc0, StateSetID(x.0)),
+        forall|s: StateID| #[trigger] tm1.contains_key(s) <==> tm0.contains_key(s),
+        forall|s: StateID| s.0 != full && tm0.contains_key(s) ==> #[trigger] tm1[s] == tm0[s],
+        tm1[StateID(full as u32)]@.contains_key(cc0),
+        forall|cc: CharClassID| cc != cc0 ==> (#[trigger] tm1[StateID(full as u32)]@.contains_key(cc) <==> tm0[StateID(full as u32)]@.contains_key(cc))
+            && (tm0[StateID(full as u32)]@.contains_key(cc) ==> tm1[StateID(full as u32)]@[cc] == tm0[StateID(full as u32)]@[cc]),
+        forall|y: StateID| #[trigger] tm1[StateID(full as u32)]@[cc0]@.contains(y) <==> (y == x || (tm0[StateID(full as u32)]@.contains_key(cc0) && tm0[StateID(full as u32)]@[cc0]@.contains(y))),
+    ensures tm_upto(d, tm1, full, j + 1)
+{
+    let sf = StateID(full as u32);
+    let trs = d.states@[full].transitions@;
+    assert forall|s: StateID, cc: CharClassID, t: StateID| #[trigger] tm_edge(tm1, s, cc, t) <==>
+            ((s.0 < full && d.states@[s.0 as int].transitions@.contains((cc, StateSetID(t.0))))
+             || (s.0 == full && exists|jj: int| 0 <= jj < j + 1 && jj < trs.len() && #[trigger] trs[jj] == (cc, StateSetID(t.0)))) by {
+        if s.0 != full {
+            assert(tm1.contains_key(s) <==> tm0.contains_key(s));
+            if tm0.contains_key(s) { assert(tm1[s] == tm0[s]); }
+            assert(tm_edge(tm1, s, cc, t) <==> tm_edge(tm0, s, cc, t));
+        } else {
+            assert(s == sf);
+            assert(tm0.contains_key(sf) && tm1.contains_key(sf));
+            let old_e = tm_edge(tm0, sf, cc, t);
+            assert(old_e <==> exists|jj: int| 0 <= jj < j && jj < trs.len() && #[trigger] trs[jj] == (cc, StateSetID(t.0)));
+            if cc == cc0 {
+                assert(tm_edge(tm1, sf, cc, t) <==> (t == x || old_e));
+                if t == x { assert(trs[j] == (cc, StateSetID(t.0))); }
+            } else {
+                assert(tm1[sf]@.contains_key(cc) <==> tm0[sf]@.contains_key(cc));
+                if tm0[sf]@.contains_key(cc) { assert(tm1[sf]@[cc] == tm0[sf]@[cc]); }
+                assert(tm_edge(tm1, sf, cc, t) <==> old_e);
+            }
+            if exists|jj: int| 0 <= jj < j + 1 && jj < trs.len() && #[trigger] trs[jj] == (cc, StateSetID(t.0)) {
+                let jj = choose|jj: int| 0 <= jj < j + 1 && jj < trs.len() && #[trigger] trs[jj] == (cc, StateSetID(t.0));
+                if jj == j { assert(cc == cc0 && t == x); }
+            }
+        }
+    }
+}
